@@ -33,6 +33,9 @@ class Check(PropertyCheck):
             if i % 12 == 11:
                 yield self.multi_scenario(rng)
                 continue
+            if i % 12 == 7:
+                yield Scenario(["new", f"mark raiser {rng.randint(0, 10**6)}"], {"kind": "raiser", "family": "raiser", "accepted": 3})
+                continue
             yield self.env_scenario(rng) if i % 6 == 5 else self.scenario(rng, tier)
 
     def multi_scenario(self, rng: random.Random) -> Scenario:
@@ -152,6 +155,9 @@ class Check(PropertyCheck):
 
     def oracle(self, impl, scenario, index, line, out, ctx):
         res = []
+        if line.startswith("mark raiser"):
+            import oracles
+            return oracles.raiser_episode(int(line.split()[2]))["C13"]
         if scenario.meta.get("kind") == "multi":
             if line.startswith("mauto") and not out.endswith("raise") and out.startswith("act "):
                 _, reward, _, _, _ = impl.last_step
